@@ -826,6 +826,71 @@ def rule_predictor_formula(ctx):
                 "evaluations differ)" % (name, hood, got, want, len(bad), rows), fn=f)
 
 
+def rule_row_reset(ctx):
+    """at a row wrap the remembered gradient of the left neighbour is cleared"""
+    from ..facts import op_place, op_const_int
+    rid = "R-ROW-RESET"
+    ctx.rule(rid, "property 8 of the MA tree is W minus the local gradient (property 9) of the pixel to the left, and plain W in column 0.  "
+                  "Properties::record keeps that gradient in PredictorState.prev_grad; on every path through the row wrap (the store of "
+                  "constant 0 into the state's `x`) the last store into `prev_grad` before the return is the constant 0.  Decided by a "
+                  "reachability walk over (block, passed the wrap, prev_grad is zero) states.  A wrap that keeps the gradient of the "
+                  "last pixel of the row above shifts property 8 of every first pixel, for trees that test it")
+    md = ctx.prog.crate("jxl_modular")
+    fs = [g for g in md.fn_list if g.path.endswith("::record") and "predictor::Properties" in g.path and g.kind == "AssocFn"]
+    if len(fs) != 1:
+        ctx.anchor_missing(rid, "jxl_modular::predictor::Properties::record")
+        return
+    f = fs[0]
+    ctx.seen(f)
+
+    def field_store(st, name):
+        if st[0] != "=" or len(st[1]) < 2:
+            return None
+        fl = [e for e in st[1][1:] if isinstance(e, list) and e[0] == "."]
+        if not fl or fl[-1][2] != name or "PredictorState" not in str(fl[-1][3]):
+            return None
+        k = op_const_int(st[2][1]) if st[2][0] == "use" else None
+        return ("const", k) if k is not None else ("var", None)
+
+    n_wrap = n_grad = 0
+    for blk in f.blocks:
+        for st in blk[0]:
+            a, b = field_store(st, "x"), field_store(st, "prev_grad")
+            n_wrap += 1 if a == ("const", 0) else 0
+            n_grad += 1 if b else 0
+    if not n_wrap or not n_grad:
+        ctx.anchor_missing(rid, "the stores `x = 0` (row wrap) and `prev_grad = ..` on PredictorState in Properties::record")
+        return
+    start = (0, False, False)
+    seen, work, bad = {start}, [start], False
+    while work:
+        b, wrapped, zero = work.pop()
+        for st in f.stmts(b):
+            a, g = field_store(st, "x"), field_store(st, "prev_grad")
+            if a == ("const", 0):
+                wrapped = True
+            if g:
+                zero = g == ("const", 0)
+        t = f.term(b)
+        if t[0] == "ret":
+            if wrapped and not zero:
+                bad = True
+            continue
+        for x in f.succs(b):
+            if f.is_cleanup(x):
+                continue
+            s2 = (x, wrapped, zero)
+            if s2 not in seen:
+                seen.add(s2)
+                work.append(s2)
+    ctx.count(rid + ".states", len(seen))
+    if bad:
+        ctx.bad(rid, "prev_grad-cleared-at-wrap|not", "a path through the row wrap returns with prev_grad not cleared: the first pixel of the next row "
+                "sees the gradient of the last pixel of this row in property 8", fn=f)
+    else:
+        ctx.ok(rid, "prev_grad-cleared-at-wrap", "every path through the row wrap ends with prev_grad = 0", nontrivial=True, fn=f)
+
+
 def main(pid, tier, repo=None):
     ctx = Ctx(pid, tier, configs=("workspace",), repo=repo)
     specconst.run(ctx, pid, floor=2)
@@ -838,6 +903,7 @@ def main(pid, tier, repo=None):
     rule_palette_fastpath(ctx)
     rule_palette_delta(ctx)
     rule_predictor_formula(ctx)
+    rule_row_reset(ctx)
     from . import fixguards
     fixguards.run(ctx, pid)
     ctx.not_decided("that every decoded sample equals the encoded integer: predictors (incl. the self-correcting one), context-tree lookup, "
